@@ -18,6 +18,7 @@ import (
 	"github.com/thushan/olla/internal/core/domain"
 	"github.com/thushan/olla/verifharness/backend"
 	"github.com/thushan/olla/verifharness/ev"
+	"github.com/thushan/olla/verifharness/hx"
 	"github.com/thushan/olla/verifharness/rawclient"
 	"github.com/thushan/olla/verifharness/stack"
 	"pgregory.net/rapid"
@@ -31,11 +32,11 @@ const MiB = 1 << 20
 
 // Req is one generated client request.
 type Req struct {
-	Route   string `json:"route"`  // proxy | provider-openai | provider-vllm | anthropic-passthrough | anthropic-translated
+	Route   string `json:"route"` // proxy | provider-openai | provider-vllm | anthropic-passthrough | anthropic-translated
 	Method  string `json:"method"`
-	Path    string `json:"path"`   // remaining path (escaped form), no leading slash
-	Query   string `json:"query"`  // raw query, may be empty
-	Kind    string `json:"kind"`   // json-model | json-nomodel | bytes
+	Path    string `json:"path"`  // remaining path (escaped form), no leading slash
+	Query   string `json:"query"` // raw query, may be empty
+	Kind    string `json:"kind"`  // json-model | json-nomodel | bytes
 	CT      string `json:"ct"`
 	Size    int    `json:"size"`
 	Chunked bool   `json:"chunked"`
@@ -47,6 +48,9 @@ type Case struct {
 	Engine string `json:"engine"`
 	Reqs   []Req  `json:"reqs"`
 	Repeat int    `json:"repeat,omitempty"` // replay: number of times to run the round
+	// Failover: a third, openai-compatible endpoint that refuses connections is in rotation when the
+	// round starts, so that some requests are first dispatched to it and then replayed elsewhere
+	Failover bool `json:"failover,omitempty"`
 }
 
 var sizeClasses = []string{"0", "small", "64k", "1MiB-1", "1MiB", "1MiB+1", "multi-MiB"}
@@ -208,6 +212,7 @@ func genCase(t *rapid.T) Case {
 			c.Reqs = append(c.Reqs, genReq(t, false, false))
 		}
 	}
+	c.Failover = rapid.IntRange(0, 3).Draw(t, "failover") == 0
 	return c
 }
 
@@ -217,6 +222,7 @@ func genCase(t *rapid.T) Case {
 type rigT struct {
 	s        *stack.Stack
 	oai, vll *backend.Rec
+	deadURL  string
 	mu       sync.Mutex
 }
 
@@ -260,14 +266,20 @@ func getRig(engine string) (*rigT, error) {
 	}
 	oai.Respond, vll.Respond = respond, respond
 	oai.KeepBody, vll.KeepBody = 5*MiB, 5*MiB
+	deadURL := fmt.Sprintf("http://127.0.0.1:%d", hx.DeadPort(0))
 	s, err := stack.Boot(stack.Options{Engine: engine, Balancer: "round-robin", Endpoints: stack.EndpointConfigs([]stack.Endpoint{
 		{Name: "oai", URL: oai.URL(), Type: "openai-compatible", Priority: 100},
 		{Name: "vllm", URL: vll.URL(), Type: "vllm", Priority: 100},
+		{Name: "dead", URL: deadURL, Type: "openai-compatible", Priority: 100},
 	})})
 	if err != nil {
 		return nil, err
 	}
 	s.SetAll(domain.StatusHealthy)
+	_ = s.SetStatus(deadURL, domain.StatusOffline)
+	if err := s.RegisterModels(deadURL, modelAny, modelTr); err != nil {
+		return nil, err
+	}
 	// model routing is neutralised: every model name a body carries is registered beforehand
 	if err := s.RegisterModels(oai.URL(), modelAny, modelTr); err != nil {
 		return nil, err
@@ -276,7 +288,7 @@ func getRig(engine string) (*rigT, error) {
 		return nil, err
 	}
 	time.Sleep(300 * time.Millisecond) // asynchronous unification
-	r := &rigT{s: s, oai: oai, vll: vll}
+	r := &rigT{s: s, oai: oai, vll: vll, deadURL: deadURL}
 	rigs[engine] = r
 	return r, nil
 }
@@ -387,6 +399,12 @@ func runRound(c Case) []ev.Violation {
 	defer r.mu.Unlock()
 	r.oai.Reset()
 	r.vll.Reset()
+	if c.Failover {
+		_ = r.s.SetStatus(r.deadURL, domain.StatusHealthy)
+		rec.Class("round-with-refusing-endpoint-in-rotation")
+	} else {
+		_ = r.s.SetStatus(r.deadURL, domain.StatusOffline)
+	}
 	round++
 	outs := make([]outcome, len(c.Reqs))
 	var wg sync.WaitGroup
@@ -613,7 +631,7 @@ func runCase(c Case) []ev.Violation {
 
 func TestC01(t *testing.T) {
 	defer stopRigs()
-	rec.SetRule("a case is a round of 1..32 requests released together through the full stack (engine sherpa|olla): route family (proxy, provider, Anthropic passthrough, Anthropic translated) x method x generated path/query x body size class {0, small, ~64 KiB, 1 MiB-1, 1 MiB, 1 MiB+1, 1-4 MiB} x body kind x Content-Length|chunked (generated chunk plan) x delayed tail; 3 of 4 multi-request rounds mix chunked >1 MiB JSON bodies with delayed tails among small inspected JSON requests. Recording backends are compared per nonce (method, path, raw query, length, SHA-256; translated: model and content ownership). non-trivial = >=2 requests in flight of which >=1 passes the body inspector's buffering path; distinct by (engine, multiset of route/framing/size-class/kind)")
+	rec.SetRule("a case is a round of 1..32 requests released together through the full stack (engine sherpa|olla): route family (proxy, provider, Anthropic passthrough, Anthropic translated) x method x generated path/query x body size class {0, small, ~64 KiB, 1 MiB-1, 1 MiB, 1 MiB+1, 1-4 MiB} x body kind x Content-Length|chunked (generated chunk plan) x delayed tail; in 1 of 4 rounds a refusing endpoint is in rotation, so some requests are dispatched to it first and replayed on a working endpoint; 3 of 4 multi-request rounds mix chunked >1 MiB JSON bodies with delayed tails among small inspected JSON requests. Recording backends are compared per nonce (method, path, raw query, length, SHA-256; translated: model and content ownership). non-trivial = >=2 requests in flight of which >=1 passes the body inspector's buffering path; distinct by (engine, multiset of route/framing/size-class/kind)")
 	rec.Assume("schedule-dependent: a green run covers the interleavings the harness produced, not all of them; replay repeats the round 40 times")
 	rec.Assume("percent-encoded reserved characters in paths (%2F, %3F) are not generated; paths are compared in decoded form")
 	if ev.IsReplay() {
